@@ -104,7 +104,10 @@ theorem solve_twice_obs_any (hbeq : ((0 : α) == 0) = true) (st : Settings α) {
   obtain ⟨s1, s2, s3⟩ := solve_solution_shape h1
   have hsol : SolShape ((presolveMap S.st.data).map (fun m => m.keep.size)) S.solution r1.S.solution :=
     SolShape.of_sizes s1.symm s3.symm s2.symm hsz
-  exact (solve_rel_any hbeq qdldl_kktSim st (Stale.of_sameShape hsh hw hq hK) hsol).ok_left h1
+  have hrel := solve_rel_any hbeq qdldl_kktSim st (S' := r1.S.withData S.st.data)
+    (Stale.of_sameShape hsh hw hq hK) hsol
+  rw [← solve_putBack h1 st] at hrel
+  exact hrel.ok_left h1
 
 /-- **the second of two `solve()` calls on one solver object** gives the observable result of the
 first: no hypothesis on `KKTSolver::update`, no condition on the initial point -/
@@ -118,6 +121,9 @@ theorem solve_twice_obs1_any (hbeq : ((0 : α) == 0) = true) (st : Settings α) 
   obtain ⟨s1, s2, s3⟩ := solve_solution_shape h1
   have hsol : SolShape ((presolveMap S.st.data).map (fun m => m.keep.size)) S.solution r1.S.solution :=
     SolShape.of_sizes s1.symm s3.symm s2.symm hsz
-  exact (solve_rel1_any hbeq st (Stale.of_sameShape hsh hw hq (solve_kktOk h1 hc hk).2) hsol).ok_left h1
+  have hrel := solve_rel1_any hbeq st (S' := r1.S.withData S.st.data)
+    (Stale.of_sameShape hsh hw hq (solve_kktOk h1 hc hk).2) hsol
+  rw [← solve_putBack h1 st] at hrel
+  exact hrel.ok_left h1
 
 end Clarabel.Solver
